@@ -72,7 +72,8 @@ class C18(E1Prop):
     def harnesses(self, tier):
         return [H("prop_C18_num_gcc", "prop_C18.cpp", shards=8),
                 H("prop_C18_num_clang", "prop_C18.cpp", shards=8, compiler="clang++"),
-                H("prop_C18_sizing_bmi2", "prop_C18.cpp", shards=9, defines=["VF_C18_SIZING"], flags=core.SAN + ["-mbmi2"]),
+                H("prop_C18_num_gcc_isa", "prop_C18.cpp", shards=8, flags=core.SAN + zoo.isa_flags()),
+                H("prop_C18_sizing_bmi2", "prop_C18.cpp", shards=9, defines=["VF_C18_SIZING"], flags=core.SAN + zoo.isa_flags()),
                 H("prop_C18_sizing_nobmi2", "prop_C18.cpp", shards=9, defines=["VF_C18_SIZING"])]
 
 
@@ -93,7 +94,7 @@ class C14(E1Prop):
     def harnesses(self, tier):
         # two builds: with -mbmi2 (pdep path + the portable loop selected by use_bmi2=false) and without
         # (the portable loop of the #else branch, which is what the suite's own build compiles)
-        return [H("prop_C14_bmi2", "prop_C14.cpp", shards=8, flags=core.SAN + ["-mbmi2"]),
+        return [H("prop_C14_bmi2", "prop_C14.cpp", shards=8, flags=core.SAN + zoo.isa_flags()),
                 H("prop_C14_nobmi2", "prop_C14.cpp", shards=8)]
 
 
@@ -114,8 +115,8 @@ class C01(E1Prop):
 
     def harnesses(self, tier):
         return [H("prop_C01_strided", "prop_C01.cpp", shards=7, defines=["VF_GROUP=0"]),
-                H("prop_C01_morton_bmi2", "prop_C01.cpp", shards=7, defines=["VF_GROUP=1"], flags=core.SAN + ["-mbmi2"]),
-                H("prop_C01_morton_portable", "prop_C01.cpp", shards=7, defines=["VF_GROUP=2"], flags=core.SAN + ["-mbmi2"]),
+                H("prop_C01_morton_bmi2", "prop_C01.cpp", shards=7, defines=["VF_GROUP=1"], flags=core.SAN + zoo.isa_flags()),
+                H("prop_C01_morton_portable", "prop_C01.cpp", shards=7, defines=["VF_GROUP=2"], flags=core.SAN + zoo.isa_flags()),
                 H("prop_C01_morton_portable_else", "prop_C01.cpp", shards=7, defines=["VF_GROUP=2"]),
                 H("prop_C01_hilbert", "prop_C01.cpp", shards=4, defines=["VF_GROUP=3"])]
 
@@ -133,7 +134,8 @@ class C04(E1Prop):
                   "oracle; complete enumeration of the 1-D boundary sets, sampling in higher dimensions.")
 
     def harnesses(self, tier):
-        return [H("prop_C04", "prop_C04.cpp", shards=8)]
+        # second build with the host's instruction-set extensions enabled (code under #if __SSE4_1__ / __AVX__ ...)
+        return [H("prop_C04", "prop_C04.cpp", shards=8), H("prop_C04_isa", "prop_C04.cpp", shards=8, flags=core.SAN + zoo.isa_flags())]
 
 
 @prop("C03")
@@ -233,7 +235,7 @@ class C05(E1Prop):
                   "round-trip oracles, under ASan.")
 
     def harnesses(self, tier):
-        b = core.SAN + ["-mbmi2"]
+        b = core.SAN + zoo.isa_flags()
         return [H("prop_C05_n13", "prop_C05.cpp", shards=9, defines=["VF_GROUP=0"], flags=b),
                 H("prop_C05_n2", "prop_C05.cpp", shards=8, defines=["VF_GROUP=1"], flags=b),
                 H("prop_C05_n2_nobmi2", "prop_C05.cpp", shards=8, defines=["VF_GROUP=1"]),
@@ -450,7 +452,7 @@ class C08(ZooProp):
         import json as _j
         import os as _os
         st = zoo.fixed_stacks()
-        h = zoo.ZooH("zoo_C08_release", st, "C08", shards=len(st), flags=core.REL + (["-mbmi2"] if zoo.cpu_has_bmi2() else []), link_flags=[])
+        h = zoo.ZooH("zoo_C08_release", st, "C08", shards=len(st), flags=core.REL + zoo.isa_flags(), link_flags=[])
         e1.build_all([h])
         workdir = _os.path.join(core.WORK, self.pid)
 
@@ -586,7 +588,7 @@ class C16(E1Prop):
     level_note = "trusted: ThreadSanitizer (g++ 12 runtime) as race oracle; rapidcheck; std::thread"
 
     def harnesses(self, tier):
-        fl = TSAN + (["-mbmi2"] if zoo.cpu_has_bmi2() else [])
+        fl = TSAN + zoo.isa_flags()
         return [H("tsan_C16", "tsan_C16.cpp", shards=16, flags=fl, link_flags=["-fsanitize=thread"], env=TSAN_ENV)]
 
     def check(self, tier, seed):
